@@ -276,8 +276,8 @@ Definition import_arr (s : state) (e : nat) : state * option obj :=
           match rest with
           | n :: _ =>
               let '(s2, hn) := import_buf s1 e n nbytes in
-              (s2, Some (mkO kind [hv'; mkH (hreg hn) 0 nbytes off len] []))
-          | [] => (s1, Some (mkO kind [hv'] []))
+              (s2, Some (mkO (if kind =? 6 then 6 else 4) [hv'; mkH (hreg hn) 0 nbytes off len] []))
+          | [] => (s1, Some (mkO (if kind =? 6 then 6 else 4) [hv'] []))
           end
       | [] => (s, None)
       end
@@ -350,7 +350,8 @@ Definition finish_handles (s : state) (hs : list handle) : list handle :=
 (* an operation is (code, a, b, c, payload); flags: 0 done, 1 Ok / in place, 2 Err / declined / copied,
    3 not applicable (wrong kind, dead slot, precondition of the API not met: nothing happens),
    4 try_unary_mut consumed the array and returned the closure's error *)
-Record op := mkOp { o_code : nat; o_a : nat; o_b : nat; o_c : nat; o_tid : nat; o_data : list Z }.
+Record op := mkOp { o_code : nat; o_a : nat; o_b : nat; o_c : nat; o_tid : nat; o_data : list Z;
+                    o_zb : Z; o_zc : Z }.   (* b and c as integers (lane values may not fit a unary nat) *)
 
 Definition appends (code : nat) : nat :=
   match code with 0 | 1 | 2 | 3 | 4 | 20 | 23 | 24 => 1 | _ => 0 end.
@@ -492,7 +493,7 @@ Definition ex_wrap_bits (s : state) (i a b : nat) : state * Z :=
 (* 14 unary_mut(|x| x + a) / 15 try_unary_mut(+a, Err on value b) / 16 into_builder *)
 Definition rebuilt (hs : list handle) : list handle :=
   match hs with [v; n] => [v; mkH (hreg n) (hoff n) (hlen n) 0 (hlen v / 4)] | _ => hs end.
-Definition ex_unary (s : state) (code i a b : nat) : state * Z :=
+Definition ex_unary (s : state) (code i : nat) (a b : Z) : state * Z :=
   match slot_k s i 4 with
   | Some hs =>
       match into_builder s hs with
@@ -506,11 +507,11 @@ Definition ex_unary (s : state) (code i a b : nat) : state * Z :=
               else
                 let vals := lanes (hlen v') (hbytes s2 v') in
                 if code =? 14 then
-                  let s3 := write_reg (hreg v') (unlanes (map (fun x => wrap32 (x + Z.of_nat a)) vals)) s2 in
+                  let s3 := write_reg (hreg v') (unlanes (map (fun x => wrap32 (x + a)) vals)) s2 in
                   (set_slot i (Some (mkO 4 (finish_handles s3 hs2) [])) s3, 1%Z)
                 else
                   let valid := match rest with n :: _ => bits_of (hbytes s2 n) 0 (hlen v' / 4) | [] => [] end in
-                  match try_lanes (Z.of_nat a) (Z.of_nat b) vals valid with
+                  match try_lanes a b vals valid with
                   | Some vals' =>
                       let s3 := write_reg (hreg v') (unlanes vals') s2 in
                       (set_slot i (Some (mkO 4 (finish_handles s3 hs2) [])) s3, 1%Z)
@@ -619,9 +620,9 @@ Definition exec (s : state) (p : op) : state * Z :=
   | 11 => ex_wrap_arr s i a b
   | 12 => ex_wrap_bits s i a b
   | 13 => ex_wrap_barr s i a b
-  | 14 => ex_unary s 14 i a b
-  | 15 => ex_unary s 15 i a b
-  | 16 => ex_unary s 16 i a b
+  | 14 => ex_unary s 14 i (o_zb p) (o_zc p)
+  | 15 => ex_unary s 15 i (o_zb p) (o_zc p)
+  | 16 => ex_unary s 16 i (o_zb p) (o_zc p)
   | 17 => ex_finish s i
   | 18 => ex_write s i 7 a b
   | 19 => ex_bit_assign s i a b
